@@ -21,6 +21,7 @@ func init() {
 	verifRegister("HarnessC11_Poison", HarnessC11_Poison)
 	verifRegister("HarnessC11_Proposer", HarnessC11_Proposer)
 	verifRegister("HarnessC11_Protocol", HarnessC11_Protocol)
+	verifRegister("HarnessC11_ProtocolOne", HarnessC11_ProtocolOne)
 }
 
 func c11Copy(v tla.Value) tla.Value {
@@ -290,7 +291,10 @@ func (w *c11Wire) Send(req TwoPCRequest, reply *TwoPCResponse) chan error {
 	return ch
 }
 
-func HarnessC11_Protocol() {
+func HarnessC11_Protocol()    { c11Protocol(2) }
+func HarnessC11_ProtocolOne() { c11Protocol(1) }
+
+func c11Protocol(writers int) {
 	const N = 3
 	copying := verifChoose("copying", 2) == 1
 	var nodes []*TwoPCArchetypeResource
@@ -306,7 +310,6 @@ func HarnessC11_Protocol() {
 			}
 		}
 	}
-	writers := 2
 	done := make(chan bool, N)
 	committed := make([]bool, N)
 	iface := distsys.ArchetypeInterface{}
